@@ -50,6 +50,15 @@ def cases(tier, seed):
                 for dup in ("same", "opposite"):
                     for order in (0, 1):
                         out.append({"frame": fr, "kind": kind, "slot": slot, "usage": "given", "dup": dup, "order": order})
+        # the same Face object used as the top of one operation and the bottom of the next (stacking),
+        # and life-cycle histories after the first write: write again / clear+write / backport+write
+        for kind in ("spline", "polyline", "angle+", "angle-", "arc", "oncurve"):
+            for slot in (4, 5, 6, 7):
+                for order in (0, 1):
+                    out.append({"frame": fr, "kind": kind, "slot": slot, "usage": "given", "dup": "stack", "order": order})
+            for slot in (0, 3, 7, 9):
+                for after in ("W", "CW", "BW", "CWW"):
+                    out.append({"frame": fr, "kind": kind, "slot": slot, "usage": "given", "dup": "none", "order": 0, "after": after})
     return out
 
 
@@ -175,7 +184,12 @@ def build(case):
     if slot >= 8:
         loft.add_side_edge(slot - 8, make())
     ops = [loft]
-    if case["dup"] != "none":
+    if case["dup"] == "stack":
+        # second operation built on the very same Face object
+        up = np.cross(P[5] - P[4], P[7] - P[4])
+        up = up / np.linalg.norm(up) * 0.6
+        ops.append(cb.Loft(top, cb.Face(P[4:] + up)))
+    elif case["dup"] != "none":
         A, B = P[a], P[b]
         centre = P.mean(axis=0)
         wdir = (A + B) / 2 - centre
@@ -215,6 +229,13 @@ def run_case(case):
     path = os.path.join(runner.scratch_dir(), f"c07_{os.getpid()}")
     try:
         mesh.write(path)
+        for ev in case.get("after", ""):
+            if ev == "W":
+                mesh.write(path)
+            elif ev == "C":
+                mesh.clear()
+            elif ev == "B":
+                mesh.backport()
     except Exception as err:
         bad("write-raised", f"{type(err).__name__}: {err}")
         return {"violations": violations, "outcome": "raised", "nontrivial": True}
@@ -290,6 +311,8 @@ def run_case(case):
     # edge length used for grading
     if "length" in ref:
         blk_pos = 0 if case["order"] == 0 else len(ops) - 1
+        if case["dup"] == "stack":
+            blk_pos = 0  # either block contains the edge
         block = mesh.blocks[blk_pos]
         wire = None
         for c1, c2 in bm.EDGES:
